@@ -57,25 +57,39 @@ def socCreate (F : TFacts) (cfg : CbConfig) (a : J) : Prog J := do
   wrappedAfter false cfg "Create" a
   pure a
 
-/-- merge of the stored and the supplied member maps, minus members the raw activity gives as null -/
-def mergeUpdate (stored supplied raw : J) : J :=
-  let m := supplied.members.foldl (fun (m : J) kv => m.set kv.1 kv.2) stored
-  raw.members.foldl (fun (m : J) kv => match kv.2 with
-    | .null => if m.has kv.1 then m.erase kv.1 else m
-    | _ => m) m
+/-- a member the raw object gives as JSON null is deleted (if present) -/
+def eraseNullStep (m : J) (kv : String × J) : J :=
+  match kv.2 with
+  | .null => if m.has kv.1 then m.erase kv.1 else m
+  | _ => m
+
+/-- merge of the stored and the supplied member maps, minus members the raw object gives as null -/
+def mergeUpdate (stored supplied rawObj : J) : J :=
+  rawObj.members.foldl eraseNullStep (supplied.members.foldl (fun (m : J) kv => m.set kv.1 kv.2) stored)
+
+/-- `rawObjectAt`: the raw JSON of the idx-th value of the raw activity's `object`, when it is a JSON object -/
+def rawObjectAt (raw : J) (idx : Nat) : J :=
+  match raw.get? "object" with
+  | some (.obj kvs) => if idx == 0 then .obj kvs else .obj []
+  | some (.arr xs) => (match xs[idx]? with
+    | some (.obj kvs) => .obj kvs
+    | _ => .obj [])
+  | _ => .obj []
+
+def socUpdateOne (F : TFacts) (raw : J) (idx : Nat) (id : Iri) (j : J) : Prog Unit :=
+  withLock id (do
+    let t ← Op.get id
+    let t ← needVal "social update: t.Serialize() on nil value" t
+    match elemOf F j with
+    | .emb objType =>
+      -- streams.ToType of the merged map is assumed to succeed and to re-serialise to the same members
+      Op.update (mergeUpdate t objType (rawObjectAt raw idx))
+    | _ => Prog.fail .lib)
 
 def socUpdate (F : TFacts) (cfg : CbConfig) (raw : J) (a : J) : Prog Unit := do
   let op ← requireObject F a
   let objIds ← idsM F op
-  (objIds.zip op).forM fun (id, j) =>
-    withLock id (do
-      let t ← Op.get id
-      let t ← needVal "social update: t.Serialize() on nil value" t
-      match elemOf F j with
-      | .emb objType =>
-        -- streams.ToType of the merged map is assumed to succeed and to re-serialise to the same members
-        Op.update (mergeUpdate t objType raw)
-      | _ => Prog.fail .lib)
+  ((objIds.zip op).zipIdx).forM fun ((id, j), idx) => socUpdateOne F raw idx id j
   wrappedAfter false cfg "Update" a
 
 def socDelete (F : TFacts) (cfg : CbConfig) (a : J) : Prog Unit := do
